@@ -39,7 +39,13 @@ def open_image(mapper, path, *, use_cache=True, create_cache=False, records_per_
         except CachingError:
             pass
 
-    with fs.open(path, mode="rb") as f:
+    try:
+        f = fs.open(path, mode="rb")
+    except KeyError as e:
+        # archive filesystems (zip, tar) report a missing member the way a mapping does
+        raise FileNotFoundError(f"Cannot open {path}") from e
+
+    with f:
         header, metadata = read_metadata(f, records_per_chunk)
 
         group, array_metadata = transform_metadata(header, metadata)
